@@ -324,6 +324,7 @@ fn rand_text(rng: &mut ChaCha8Rng, specials: &[String], maxlen: usize) -> String
     let pool: Vec<&str> = vec![
         "a", "b", "z", "A", "0", " ", " ", "\t", "\n", "\r\n", "\u{00A0}", "ä", "é", "e\u{0301}", "€", "字", "😀",
         "👨\u{200D}👩\u{200D}👧", "🇩🇪", "\u{200B}", "<", ">", "<p", "p>", "<<", "/", "|", "~", "\u{3000}", "ß", "x\u{0308}",
+        giant_cluster(),
     ];
     let n = rng.random_range(0..=maxlen);
     let mut s = String::new();
